@@ -306,6 +306,7 @@ def judgeLine (line : String) : String :=
   | [inp, obs] =>
     let obs := obs.trimAscii.toString
     if obs.contains "panic" then "violates no-crash" else
+    if obs == "hang" then "violates nested-stall" else      -- the harness's watchdog: the history could not be brought to an end
     match words inp with
     | "scn" :: tr :: _ :: _ :: _ :: ops =>
       match history (tr == "udp") ops (obs.splitOn ";") with
